@@ -1,0 +1,123 @@
+//go:build verif
+
+package immutable
+
+// Contracts for the hash array mapped trie (map.go) — properties C03 / C04 — checked by
+// /verif/govc.  Comment-only file.
+//
+// The abstract content of a (sub)trie is what its own lookup path yields:
+// nodeGet(n, k, shift, h).  Every node kind is verified separately against the
+// same contract (internal/verifspec/hamtnode.contracts); children are known
+// only through that contract (interface contract of mapNode), so the argument
+// is an induction over the height of the trie with one proved step per node kind.
+// Rec_nodeWF is the structural invariant (C03 anchors: popcount(bitmap)==len(nodes),
+// count == number of non-nil slots, collision nodes >= 2 entries with one hash and
+// pairwise non-Eqv keys, every key stored below the slot its hash fragment selects).
+
+//@ logical
+//@ import "github.com/csgura/fp/internal/veriflaws"
+//@ import "math/bits"
+//
+//@ ghost
+//@ func nodeGet[K, V any](n mapNode[K, V], k K, shift uint, h fp.Hashable[K]) fp.Option[V] {
+//@ 	if n == nil {
+//@ 		return fp.None[V]()
+//@ 	}
+//@ 	return n.get(k, shift, h.Hash(k), h)
+//@ }
+//@ func frag(hash uint32, shift uint) uint32 {
+//@ 	return (hash >> shift) & mapNodeMask
+//@ }
+//@ func prefixOK[K, V any](n mapNode[K, V], shift uint, p uint32, h fp.Hashable[K]) bool {
+//@ 	return forall k K :: nodeGet(n, k, shift, h).IsDefined() ==> (h.Hash(k)^p)&((uint32(1)<<shift)-1) == 0
+//@ }
+//@ func entriesWF[K, V any](es []mapEntry[K, V], h fp.Hashable[K]) bool {
+//@ 	return forall i, j int :: 0 <= i && i < j && j < len(es) ==> !h.Eqv(es[i].key, es[j].key)
+//@ }
+//@ func arrayWF[K, V any](n *mapArrayNode[K, V], h fp.Hashable[K]) bool {
+//@ 	return len(n.entries) >= 1 && entriesWF(n.entries, h)
+//@ }
+//@ func collisionWF[K, V any](n *mapHashCollisionNode[K, V], h fp.Hashable[K]) bool {
+//@ 	return len(n.entries) >= 2 && entriesWF(n.entries, h) && (forall i int :: 0 <= i && i < len(n.entries) ==> h.Hash(n.entries[i].key) == n.keyHash)
+//@ }
+//@ func bitmapWF[K, V any](n *mapBitmapIndexedNode[K, V], shift uint, h fp.Hashable[K]) bool {
+//@ 	return shift <= 30 && len(n.nodes) >= 1 && len(n.nodes) == bits.OnesCount32(n.bitmap) && (forall i int :: 0 <= i && i < len(n.nodes) ==> n.nodes[i] != nil && Rec_nodeWF(n.nodes[i], shift+mapNodeBits, h)) && (forall i int, k K :: 0 <= i && i < len(n.nodes) && nodeGet(n.nodes[i], k, shift+mapNodeBits, h).IsDefined() ==> n.bitmap&(uint32(1)<<frag(h.Hash(k), shift)) != 0 && bits.OnesCount32(n.bitmap&((uint32(1)<<frag(h.Hash(k), shift))-1)) == i)
+//@ }
+//@ func b2u(b bool) uint {
+//@ 	if b {
+//@ 		return 1
+//@ 	}
+//@ 	return 0
+//@ }
+//@ func slotWF[K, V any](n *mapHashArrayNode[K, V], i int, shift uint, h fp.Hashable[K]) bool {
+//@ 	return n.nodes[i] != nil ==> Rec_nodeWF(n.nodes[i], shift+mapNodeBits, h) && (forall k K :: nodeGet(n.nodes[i], k, shift+mapNodeBits, h).IsDefined() ==> frag(h.Hash(k), shift) == uint32(i))
+//@ }
+//@ func hashArrayWF[K, V any](n *mapHashArrayNode[K, V], shift uint, h fp.Hashable[K]) bool {
+//@ 	return shift <= 30 && n.count == <<i=0..31| + |b2u(n.nodes[$i] != nil)>> && <<i=0..31| && |slotWF(n, $i, shift, h)>>
+//@ }
+//@ func Rec_nodeWF[K, V any](n mapNode[K, V], shift uint, h fp.Hashable[K]) bool {
+//@ 	switch n := n.(type) {
+//@ 	case *mapValueNode[K, V]:
+//@ 		return n != nil && n.keyHash == h.Hash(n.key)
+//@ 	case *mapHashCollisionNode[K, V]:
+//@ 		return n != nil && collisionWF(n, h)
+//@ 	case *mapArrayNode[K, V]:
+//@ 		return n != nil && arrayWF(n, h)
+//@ 	case *mapBitmapIndexedNode[K, V]:
+//@ 		return n != nil && bitmapWF(n, shift, h)
+//@ 	case *mapHashArrayNode[K, V]:
+//@ 		return n != nil && hashArrayWF(n, shift, h)
+//@ 	}
+//@ 	return n == nil
+//@ }
+//@ end
+//
+// ---- interface contract: what a node knows about its children
+//@ include internal/verifspec/hamtnode.contracts HEAD=iface·mapNode. OPTS=option·frame=on
+//
+// ---- leaves
+// leafWF(l, h): what every leaf (value node, collision node) guarantees about its own lookups:
+// a key is found only if its hash is the leaf's hash, and the depth argument is irrelevant.
+//@ ghost
+//@ func leafWF[K, V any](l mapLeafNode[K, V], h fp.Hashable[K]) bool {
+//@ 	return l != nil && (forall k K, s uint :: l.get(k, s, h.Hash(k), h).IsDefined() ==> h.Hash(k) == l.keyHashValue()) && (forall k K, s1, s2 uint :: Eq(l.get(k, s1, h.Hash(k), h), l.get(k, s2, h.Hash(k), h)))
+//@ }
+//@ end
+//
+//@ func mergeIntoNode(node, shift, keyHash, key, value) result
+//@   prop C03
+//@   option summary
+//@   option assumerec=mergeIntoNode
+//@   option timeout=60
+//@   requires node != nil && node.keyHashValue() != keyHash && shift <= 30 && shift%5 == 0
+//@   requires (node.keyHashValue() >> shift) != (keyHash >> shift)
+//@   ensures result != nil
+//@   ensures forall h fp.Hashable[K], k K :: veriflaws.HashLaws(h) && leafWF(node, h) && keyHash == h.Hash(key) && h.Eqv(k, key) ==> Eq(nodeGet(result, k, shift, h), fp.Some(value))
+//@   tag newKey
+//@   ensures forall h fp.Hashable[K], k K :: veriflaws.HashLaws(h) && leafWF(node, h) && keyHash == h.Hash(key) && !h.Eqv(k, key) ==> Eq(nodeGet(result, k, shift, h), nodeGet(mapNode[K, V](node), k, shift, h))
+//@   tag otherKeys
+//@   ensures forall h fp.Hashable[K] :: veriflaws.HashLaws(h) && leafWF(node, h) && keyHash == h.Hash(key) && (forall s uint :: Rec_nodeWF(mapNode[K, V](node), s, h)) ==> Rec_nodeWF(result, shift, h)
+//@   tag wellFormed
+//@   ensures Unchanged()
+//@   tag persistent
+//
+//@ include internal/verifspec/hamtnode.contracts HEAD=func·(*mapValueNode). OPTS=option·assume=mergeIntoNode
+//
+// ---- array node (root only): entries searched linearly, first match wins
+//@ func (*mapArrayNode).indexOf(n, key, h) result
+//@   prop C03
+//@   option summary
+//@   requires n != nil
+//@   ensures (result == -1 && (forall j int :: 0 <= j && j < len(n.entries) ==> !h.Eqv(n.entries[j].key, key))) || (0 <= result && result < len(n.entries) && h.Eqv(n.entries[result].key, key) && (forall j int :: 0 <= j && j < result ==> !h.Eqv(n.entries[j].key, key)))
+//@   tag firstMatch
+//@   loop 0 invariant 0 <= i && i < len(n.entries) && (forall j int :: 0 <= j && j < i ==> !h.Eqv(n.entries[j].key, key))
+//@   loop 0 decreases len(n.entries) - i
+//
+//@ include internal/verifspec/hamtnode.contracts HEAD=func·(*mapArrayNode). OPTS=option·assume=indexOf,mergeIntoNode
+//
+//@ func (*mapArrayNode).set(n, key, value, shift, keyHash, h, mutable, resized) result
+//@   loop 0 invariant 0 <= idx_ && idx_ < len(n.entries) && node != nil && *resized && Rec_nodeWF(node, 0, h)
+//@   loop 0 invariant forall k K :: h.Eqv(k, key) ==> Eq(nodeGet(node, k, 0, h), fp.Some(value))
+//@   loop 0 invariant forall k K, j int :: 0 <= j && j < idx_ && h.Eqv(n.entries[j].key, k) ==> Eq(nodeGet(node, k, 0, h), fp.Some(n.entries[j].value))
+//@   loop 0 invariant forall k K :: !h.Eqv(k, key) && (forall j int :: 0 <= j && j < idx_ ==> !h.Eqv(n.entries[j].key, k)) ==> !nodeGet(node, k, 0, h).IsDefined()
+//@   loop 0 decreases len(n.entries) - idx_
